@@ -31,7 +31,7 @@ CHECK_DEADLOCK FALSE
 ASSUME = [
     "harness/drive_isolation.cpp: the observed run and the solo runs of an execution each start in a fresh forked child of a process that never called the library; hook H1 (per-instance tap) sees every register write / period",
     "PCM and tap streams are compared through 64-bit FNV-1a hashes (a collision would hide a difference)",
-    "freshly allocated C++ memory is filled with 0x00 (observed run, solo run 1) / 0xA5 (solo run 2) by the harness's operator new (glibc M_PERTURB for malloc outside AddressSanitizer): dependence on uninitialised heap memory shows as a determinism failure; uninitialised stack reads are not provoked",
+    "freshly allocated C++ memory is filled with 0x00 (observed run, solo run 1) / one of 0xA5 0xB4 0x28 0xFF 0x4C (solo run 2, by execution) by the harness's operator new (glibc M_PERTURB for malloc outside AddressSanitizer): dependence on uninitialised heap memory shows as a determinism failure; uninitialised stack reads are not provoked",
     "thorough tier: ThreadSanitizer (clang 14) is the race oracle; calls of one round run concurrently, a barrier separates rounds, so only same-round accesses can be reported",
     "TLC 1.8 evaluates Isolation/IsolationTrace correctly",
 ]
